@@ -24,15 +24,18 @@ import (
 
 	"github.com/Ptt-official-app/go-pttbbs/api"
 	"github.com/Ptt-official-app/go-pttbbs/bbs"
+	"github.com/Ptt-official-app/go-pttbbs/ptttype"
 	"github.com/gin-gonic/gin"
 	"github.com/sirupsen/logrus"
 	"io"
+	"verifharness/internal/bbsenv"
 	"verifharness/internal/hx"
 )
 
 var run *hx.Run
 var router *gin.Engine
 var skipped int
+var env *bbsenv.Env
 
 type tcase struct {
 	op string
@@ -410,6 +413,68 @@ func execCase(c tcase, now int64) (o outcome) {
 		}
 		judgeRefresh(&o, nf, second, hvw, rraw, rv, pcli, b, res, av, nv, now)
 
+	case "chgemail", "setidemail":
+		if env == nil {
+			o.skip = true
+			return
+		}
+		uu, q := unhx0(c.a[0]), unhx0(c.a[1])
+		raw := b.build(c.a[2])
+		v := lookRaw(raw)
+		if v.class == 'U' {
+			o.skip = true
+			return
+		}
+		tokw := v.word(now) + "@" + c.a[2]
+		valid := false
+		eml, _ := strClaim(v.claims[5])
+		ctx := string(api.CONTEXT_CHANGE_EMAIL)
+		sysopOK := false
+		if c.op == "chgemail" {
+			o.line = fmt.Sprintf("chgemail %s %s %s", c.a[0], c.a[1], tokw)
+			o.impl = hx.CallSync(func() string {
+				res, err := api.ChangeEmail("127.0.0.1", bbs.UUserID(uu), &api.ChangeEmailParams{Jwt: raw}, &api.ChangeEmailPath{UserID: bbs.UUserID(q)}, nil)
+				if err == api.ErrInvalidUser {
+					return "invalid"
+				}
+				valid = true
+				if err != nil {
+					return "valid-error:" + strings.ReplaceAll(err.Error(), " ", "-")
+				}
+				eml = res.(*api.ChangeEmailResult).Email
+				return "valid eml=" + hx0(eml)
+			})
+		} else {
+			ctx = string(api.CONTEXT_SET_ID_EMAIL)
+			isSysop := bbs.IsSysop(bbs.UUserID(uu), ptttype.PERM_ACCOUNTS|ptttype.PERM_SYSOP|ptttype.PERM_ACCTREG)
+			sysopOK = isSysop
+			o.line = fmt.Sprintf("setidemail %s %s %s %d", c.a[0], c.a[1], tokw, b2i(isSysop))
+			o.impl = hx.CallSync(func() string {
+				_, err := api.SetIDEmail("127.0.0.1", bbs.UUserID(uu), &api.SetIDEmailParams{IsSet: true, Jwt: raw}, &api.SetIDEmailPath{UserID: bbs.UUserID(q)}, nil)
+				if err == api.ErrInvalidUser {
+					return "invalid"
+				}
+				valid = true
+				return "valid"
+			})
+		}
+		o.label = fmt.Sprintf("%s:%v:%s", c.op, valid, why(v))
+		if o.impl == "PANIC" {
+			o.fail("crash:"+c.op, "panic: "+hx.LastPanic)
+			return
+		}
+		if valid {
+			if raw == "" {
+				o.fail("auth:accepted-forged", c.op+" went ahead without an e-mail token")
+			}
+			if q == ptttype.STR_GUEST || (uu != q && !sysopOK) {
+				o.fail("auth:wrong-user", fmt.Sprintf("%s for user %q went ahead on behalf of requester %q", c.op, q, uu))
+			}
+			judgeVerify(&o, c.op, 'e', raw, v, b, true, q, eml, ctx, true, now)
+		} else if uu == q && q != ptttype.STR_GUEST {
+			judgeVerify(&o, c.op, 'e', raw, v, b, false, q, eml, ctx, true, now)
+		}
+
 	default:
 		panic("unknown op " + c.op)
 	}
@@ -467,6 +532,10 @@ func parseOp(line string) (tcase, bool) {
 		return tc(w[0], w[1], rec(w[2]), rec(w[3])), true
 	case (w[0] == "tokinfo" || w[0] == "rtokinfo") && len(w) == 4:
 		return tc(w[0], rec(w[1]), rec(w[2]), rec(w[3])), true
+	case w[0] == "chgemail" && len(w) == 4:
+		return tc("chgemail", w[1], w[2], rec(w[3])), true
+	case w[0] == "setidemail" && len(w) == 5:
+		return tc("setidemail", w[1], w[2], rec(w[3])), true
 	case w[0] == "refresh" && len(w) == 5:
 		return tc("refresh", rec(w[1]), rec(w[2]), w[3], rec(w[4])), true
 	}
@@ -479,6 +548,14 @@ func main() {
 	logrus.SetLevel(logrus.PanicLevel)
 	router = newRouter()
 	_ = http.StatusOK
+	// ChangeEmail / SetIDEmail look the requester and the target up in the user file: a private BBSHOME
+	if e, err := bbsenv.New(bbsenv.Options{}); err == nil {
+		env = e
+		defer env.Close()
+	} else {
+		run.Note("no private BBS environment (" + err.Error() + "): chgemail/setidemail cases are skipped")
+	}
+	logrus.SetOutput(io.Discard)
 
 	if run.Replay != "" {
 		for _, l := range hx.ReplayOps(run.Replay) {
